@@ -33,8 +33,12 @@ impl WalRecuperator {
 
     /// Runs the recovery
     pub(crate) fn run_recovery(&mut self, analysis: &AnalysisResult) -> RuntimeResult<()> {
-        self.run_undo(&analysis)?;
+        // Repeat history first, then roll the losers back: a loser may have written to a table
+        // whose CREATE TABLE (by a committed transaction) is itself only in the log, and undoing
+        // it before that table has been redone fails with 'Table not found', which made the
+        // database impossible to open.
         self.run_redo(&analysis)?;
+        self.run_undo(&analysis)?;
 
         Ok(())
     }
